@@ -31,8 +31,9 @@
                    Park::subscribe's own timeout / io timeout_handler: set_co_para(TimedOut)), Cancel c
                    (Coroutine::cancel: fetch_or 1, then a coroutine registered with set_co is taken,
                    set_co_para(Canceled), scheduled; one registered with set_io is scheduled WITHOUT para;
-                   whatever the disable count), Recheck c (`if cancel.is_canceled() { cancel.cancel() }`
-                   at the end of subscribe)                                                   PSusp k -> PReady k
+                   whatever the disable count), Recheck c (the re-check of the cancel status at the end of
+                   subscribe: since commit d874713 Park / fast Park / Sleep take the coroutine themselves,
+                   set_co_para(Canceled), schedule; the io sources call cancel.cancel())                                                   PSusp k -> PReady k
      Back c        EventSource::yield_back after the short-cut or after the resumption (table yb_of):
                    YCheck  check_cancel: state == 1 -> get_co_para(), then Cancel panic unless panicking
                    YNone   Park with ignore_cancel: nothing
